@@ -79,8 +79,15 @@ class UpgradedAnnotation(metaclass=abc.ABCMeta):
         return _PreEvaluatedAnnotation(value)
 
     def __eq__(self, other):
+        if self is other:
+            return True
         if isinstance(other, UpgradedAnnotation):
-            return self.source_value() == other.source_value()
+            try:
+                return self.source_value() == other.source_value()
+            except Exception:
+                # a postponed annotation that cannot be evaluated
+                # (eg. a name only imported under TYPE_CHECKING)
+                return False
         return False
 
 
